@@ -12,6 +12,7 @@ EVIDENCE = os.path.join(VERIF, "evidence")
 REPLAYS = os.path.join(VERIF, "replays")
 RUSTFLAGS = "--cfg rngs_verif --check-cfg cfg(rngs_verif)"
 
+LEVEL = "proof"
 ALLOWED_AXIOMS = {"propext", "Classical.choice", "Quot.sound"}
 FORBIDDEN_TOKENS = ["sorry", "admit", "native_decide", "bv_decide", "implemented_by", "unsafe ",
                     "maxHeartbeats 0"]
@@ -256,7 +257,7 @@ def write_replay(pid, payload):
 
 def write_evidence(pid, tier, seed, coverage, wall, violations, assumptions):
     os.makedirs(EVIDENCE, exist_ok=True)
-    ev = dict(property_id=pid, tier=tier, seed=seed, level="proof", coverage=coverage,
+    ev = dict(property_id=pid, tier=tier, seed=seed, level=LEVEL, coverage=coverage,
               assumptions=assumptions, wall_s=round(wall, 2), violations=violations)
     with open(os.path.join(EVIDENCE, pid + ".json"), "w") as f:
         json.dump(ev, f, indent=1)
